@@ -8,7 +8,9 @@
    Histories are arbitrary lists of Subscribe / WatchStart / Notify / Drain / EndWatch events
    (any number of subscribers, interfaces, changes; any interleaving of these atomic steps). *)
 From Coq Require Import String.
-From CR Require Import Model.Watcher Proofs.WatcherSpec Proofs.Watcher.
+From CR Require Import Model.Watcher.
+From CR Require Import Proofs.WatcherSpec.
+From CR Require Import Proofs.Watcher.
 From Coq Require Import List Lia.
 Import ListNotations.
 Local Open Scope nat_scope.
